@@ -321,3 +321,95 @@ def build_frame(opcode, payload=b"", fin=True, rsv=0, mask=None, length_form=Non
         out = out + mask
         payload = _mk([payload[i] ^ mask[i & 3] for i in range(n)])
     return out + payload
+
+
+# ------------------------------------------------------------------------------------------
+# asyncio flavour (units using these run in their own interpreter: budget framework="asyncio")
+# ------------------------------------------------------------------------------------------
+def setup_asyncio():
+    """deterministic asyncio loop (callbacks only, no I/O); exceptions reaching the loop's handler are recorded in loop.verif_errors"""
+    import asyncio
+    import txaio
+    txaio.use_asyncio()
+    loop = asyncio.new_event_loop()
+    asyncio.set_event_loop(loop)
+    txaio.config.loop = loop
+    loop.verif_errors = []
+    loop.set_exception_handler(lambda lp, ctx: lp.verif_errors.append(repr(ctx.get("exception") or ctx.get("message"))))
+    return loop
+
+
+def run_loop(loop, n=6):
+    """let scheduled callbacks (future done-callbacks, call_soon) run; timers in the future are left alone"""
+    for _ in range(n):
+        loop.call_soon(loop.stop)
+        loop.run_forever()
+
+
+def patch_env_aio(sx, fixed_rnd=True):
+    import autobahn.websocket.protocol as pm
+    rnd = FixedRandom() if fixed_rnd else StubRandom(sx, "rnd")
+    pm.random = ModProxy(_random, getrandbits=rnd.getrandbits, seed=lambda *a: None)
+    pm.os = ModProxy(os, urandom=lambda n: _FIXED_KEY[:n] if n <= 16 else bytes(n))
+    return rnd
+
+
+def make_endpoint_aio(sx, who, server, trace, loop, opts=None, url="ws://localhost:9000", factory_kwargs=None, extra_attrs=None):
+    """real asyncio-adapter protocol instance on a recording transport"""
+    from autobahn.asyncio import websocket as aw
+
+    class Rec:
+        log = NULLLOG
+
+        def onConnect(self, r):
+            trace.append((who, "connect"))
+            return None
+
+        def onOpen(self):
+            trace.append((who, "open"))
+
+        def onMessage(self, payload, isBinary):
+            trace.append((who, "msg", payload, isBinary))
+
+        def onClose(self, wasClean, code, reason):
+            trace.append((who, "close", wasClean, code, reason))
+
+    base = aw.WebSocketServerProtocol if server else aw.WebSocketClientProtocol
+    cls = type("RecAio" + ("Server" if server else "Client"), (Rec, base), dict(extra_attrs or {}))
+    fk = dict(factory_kwargs or {})
+    f = (aw.WebSocketServerFactory if server else aw.WebSocketClientFactory)(url, loop=loop, **fk)
+    f.log = NULLLOG
+    f.protocol = cls
+    if opts:
+        f.setProtocolOptions(**opts)
+    p = f()
+    t = FakeTransport(trace, who)
+    return Endpoint(who, p, t, f), f
+
+
+def deliver_aio(ep, loop, data, cuts=(), run_between=True):
+    """feed `data` to data_received in segments; the adapter queues them and processes them from a loop callback"""
+    prev = 0
+    for c in list(cuts) + [len(data)]:
+        c = min(max(c, prev), len(data))
+        if c > prev:
+            ep.p.data_received(data[prev:c])
+            if run_between:
+                run_loop(loop)
+        prev = c
+    run_loop(loop)
+
+
+def open_pair_aio(sx, trace=None, server_opts=None, client_opts=None, protocols=None):
+    loop = setup_asyncio()
+    trace = Trace() if trace is None else trace
+    rnd = patch_env_aio(sx)
+    fk = dict(protocols=protocols) if protocols else None
+    s, sf = make_endpoint_aio(sx, "S", True, trace, loop, server_opts, factory_kwargs=fk)
+    c, cf = make_endpoint_aio(sx, "C", False, trace, loop, client_opts, factory_kwargs=fk)
+    s.p.connection_made(s.t)
+    c.p.connection_made(c.t)
+    run_loop(loop)
+    deliver_aio(s, loop, concat(c.t.take()))
+    deliver_aio(c, loop, concat(s.t.take()))
+    return loop, trace, s, c, rnd
